@@ -645,6 +645,19 @@ class Unit:
             text, l32 = desugar_str_patterns(text)
             for ln_ in l32:
                 self.desugar_log.append(('D32', '%s: %s' % (e.qualname, ln_)))
+        if not e.trusted and '.as_deref()' in text and re.search(r'->\s*Option<\s*&\s*\[', text):
+            # D43: `self.F.as_deref()` in a function returning Option<&[T]> (F: Option<Vec<T>>): the definition of Option::as_deref
+            # (`match self { Some(t) => Some(t.deref()), None => None }`) with Vec's deref (= as_slice) written out
+            text, n43 = re.subn(r'\bself\.(\w+)\.as_deref\(\)', lambda m_: 'match &self.%s { Some(oq3_v) => Some(oq3_v.as_slice()), None => None }' % m_.group(1), text)
+            if n43:
+                self.desugar_log.append(('D43', '%s: %d `self.F.as_deref()` on an Option<Vec<T>> field -> `match &self.F { Some(v) => Some(v.as_slice()), None => None }`' % (e.qualname, n43)))
+        if not e.trusted and re.search(r'\.map_or\(\s*\w+\s*,\s*Vec::len\s*\)', text):
+            # D3 with a function path for the closure: `self.F.as_ref().map_or(D, Vec::len)` is Option::map_or's definition with
+            # `Vec::len` applied to the payload (D a literal or a name: evaluating it eagerly or not makes no difference)
+            text, n3p = re.subn(r'\bself\.(\w+)\.as_ref\(\)\.map_or\(\s*(\w+)\s*,\s*Vec::len\s*\)',
+                                lambda m_: 'match self.%s.as_ref() { Some(oq3_v) => oq3_v.len(), None => %s }' % (m_.group(1), m_.group(2)), text)
+            if n3p:
+                self.desugar_log.append(('D3', '%s: %d `self.F.as_ref().map_or(D, Vec::len)` -> `match self.F.as_ref() { Some(v) => v.len(), None => D }`' % (e.qualname, n3p)))
         if getattr(e, 'bool_compound', False):
             # D36: `X |= E;` / `X &= E;` on bools (Verus has only the short-circuit forms): E is evaluated first, as the original does
             text, n36 = re.subn(r'(?m)^(\s*)([A-Za-z_][\w.]*)\s*(\|=|&=)\s*([^;\n]+);[ \t]*$',
